@@ -63,7 +63,7 @@ async def scenario(starts, mode):
     want_n = N_STEPS - first
     try:
         for _ in range(want_n):
-            got.append(await asyncio.wait_for(out.receive(), timeout=1.0))
+            got.append(await asyncio.wait_for(out.receive(), timeout=10.0))
     except (asyncio.TimeoutError, Exception):  # pylint: disable=broad-except
         pass
     await eng._stop()  # pylint: disable=protected-access
